@@ -123,7 +123,8 @@ func (l *language) templates(g *grammar.Grammar) []file {
 	}
 	if g.Parser.Types != nil {
 		ret = append(ret, l.Types...)
-		if g.Options.GenSelector || g.Options.EventFields {
+		if g.Options.GenSelector || g.Options.EventFields || g.Options.EventAST {
+			// Note: the AST (tree.go) is navigated with selectors.
 			ret = append(ret, l.Selector...)
 		}
 		if g.Options.EventAST {
